@@ -436,6 +436,7 @@ def load_tree(root):
             cmds, os_ = Parser(open(p, encoding="utf-8").read(), p).file()
             for o in os_:
                 w, l, paste = obj_versions(o, cmds)
+                o["all_tags"] = list(o["tags"]) + [(key, text) for cmd, key, text in cmds if cmd == "tag_all"]
                 if paste:
                     for v in w:
                         c = dict(o)
